@@ -87,8 +87,8 @@ impl Prop for BitsProp {
         let kinds = self.kinds.to_vec();
         let is_da = self.id == "C07";
         let (max_n, max_groups) = match tier {
-            Tier::Quick => (300_000usize, 4usize),
-            Tier::Thorough => (6_000_000, 8),
+            Tier::Quick => (1_200_000usize, 4usize),
+            Tier::Thorough => (16_000_000, 8),
         };
         let content = if is_da {
             prop_oneof![
@@ -125,12 +125,12 @@ impl Prop for BitsProp {
     }
     fn cases(&self, tier: Tier, build: &str) -> u32 {
         match (self.id, tier, build) {
-            ("C06", Tier::Quick, "fast") => 12_000,
-            ("C06", Tier::Quick, _) => 5_000,
+            ("C06", Tier::Quick, "fast") => 40_000,
+            ("C06", Tier::Quick, _) => 15_000,
             ("C06", Tier::Thorough, "fast") => 200_000,
             ("C06", Tier::Thorough, _) => 80_000,
-            (_, Tier::Quick, "fast") => 5_000,
-            (_, Tier::Quick, _) => 1_600,
+            (_, Tier::Quick, "fast") => 10_000,
+            (_, Tier::Quick, _) => 3_200,
             (_, Tier::Thorough, "fast") => 80_000,
             (_, Tier::Thorough, _) => 25_000,
         }
